@@ -3,4 +3,4 @@ Require Extraction.
 Require Import ExtrOcamlBasic.
 From Verif Require Import Backoff.Model.
 Extraction Language OCaml.
-Extraction "backoff_model.ml" step init_world get_types latest_errs.
+Extraction "backoff_model.ml" step init_world get_types latest_errs expo killed_sig.
